@@ -250,8 +250,11 @@ def baseline_off(repo="/repo"):
     tests = sorted(f for f in os.listdir(os.path.join(b.tree, "test")) if f.startswith("suite-") and f.endswith(".janet"))
     failed = []
     for t in tests:
-        r = subprocess.run([v["janet"], os.path.join("test", t)], cwd=b.tree, stdout=subprocess.PIPE, stderr=subprocess.STDOUT, timeout=900)
-        ok = r.returncode == 0
+        for attempt in range(3):  # timing-sensitive suites (ev, filewatch) can fail under heavy machine load: retry
+            r = subprocess.run([v["janet"], os.path.join("test", t)], cwd=b.tree, stdout=subprocess.PIPE, stderr=subprocess.STDOUT, timeout=900)
+            ok = r.returncode == 0
+            if ok:
+                break
         print(("PASS " if ok else "FAIL ") + "janet::test/" + t)
         if not ok:
             failed.append(t)
